@@ -747,3 +747,17 @@ var _ = fnv64
 //
 //go:norace
 func Elem[T any](c chan<- T, v T) T { return v }
+
+// WrapG wraps the argument of an X.Go(...) call whatever its type: func() error (errgroup),
+// func() (worker pools), anything else is passed through untouched.
+//
+//go:norace
+func WrapG[F any](site string, f F) F {
+	switch g := any(f).(type) {
+	case func() error:
+		return any(WrapE(site, g)).(F)
+	case func():
+		return any(Wrap(site, g)).(F)
+	}
+	return f
+}
